@@ -265,3 +265,62 @@ func VerifH_DeadContextCall() {
 	symx.MustFinish(tW, "after Stop the lane goroutine terminates")
 	symx.Reach("end")
 }
+
+// C14/H2e (runner queue, placements of Stop): Stop issued by a call running on the lane with another call
+// already queued behind it, and Stop issued before Run: Stop returns, both accepted calls complete with
+// their own results, a later call is refused, the lane goroutine terminates.
+func VerifH_RunnerStopInside() {
+	wg := &sync.WaitGroup{}
+	qSize := symx.Concrete(symx.Int("qSize"), 0, 2)
+	r := NewRunnerQ(WithQSize(qSize), WithWaitGroup(wg))
+	beforeRun := symx.Bool("stopBeforeRun")
+	symx.Assume(!beforeRun || qSize != 1) // two calls must fit into the queue of a lane that does not run yet
+	if !beforeRun {
+		r.Run()
+	}
+	var ran [3]int
+	gate := make(chan struct{})
+	body := func(id int) (interface{}, error) {
+		ran[id]++
+		if id == 0 && !beforeRun {
+			<-gate
+			r.Stop()
+		}
+		return 100 + id, nil
+	}
+	useProc := symx.Bool("procInterface")
+	call := func(ctx context.Context, id int) (interface{}, error) {
+		if useProc {
+			return r.AsyncProc(ctx, verifProc{id, body})
+		}
+		return r.AsyncDelegate(ctx, func(context.Context) (interface{}, error) { return body(id) })
+	}
+	var res [3]interface{}
+	var e [3]error
+	tA := symx.Go("callerA", func() { res[0], e[0] = call(verifNewRCtx(), 0) })
+	symx.WaitQuiescent()
+	tB := symx.Go("callerB", func() { res[1], e[1] = call(verifNewRCtx(), 1) })
+	symx.WaitQuiescent()
+	symx.Assert(symx.Blocked(tA) && symx.Blocked(tB), "both calls are accepted and wait (lane busy or not yet running)")
+	if beforeRun {
+		tS := symx.Go("stopper", func() { r.Stop() })
+		symx.WaitQuiescent()
+		symx.MustFinish(tS, "Stop returns without the lane having run")
+		r.Run()
+	} else {
+		close(gate)
+	}
+	symx.WaitQuiescent()
+	symx.MustFinish(tA, "a call accepted before Stop completes")
+	symx.MustFinish(tB, "a call accepted before Stop completes")
+	symx.Assert(e[0] == nil && res[0].(int) == 100 && ran[0] == 1, "caller A receives the result of its own call, run once")
+	symx.Assert(e[1] == nil && res[1].(int) == 101 && ran[1] == 1, "caller B receives the result of its own call, run once")
+	tC := symx.Go("late", func() { res[2], e[2] = call(verifNewRCtx(), 2) })
+	symx.WaitQuiescent()
+	symx.MustFinish(tC, "a call after Stop returns at once")
+	symx.Assert(e[2] == ErrClosed && ran[2] == 0, "after Stop no new call is accepted")
+	tW := symx.Go("waiter", func() { wg.Wait(); r.WaitStop() })
+	symx.WaitQuiescent()
+	symx.MustFinish(tW, "after Stop the lane goroutine terminates")
+	symx.Reach("end")
+}
